@@ -269,6 +269,9 @@ pub struct OpRec {
     pub cancelled_by_controller: bool,
     /// result of is_closed() sampled by the actor right before invoking (get ops)
     pub closed_at_invoke: bool,
+    pub fault_used: bool,
+    /// C03: books before the call (snapshot, idle ids, status)
+    pub snap0: Option<(deadpool::managed::VerifSnapshot, Vec<u32>, StatusV)>,
 }
 
 #[derive(Default, Clone, Debug)]
@@ -453,6 +456,8 @@ impl MWorld {
             target: None,
             cancelled_by_controller: false,
             closed_at_invoke: false,
+            fault_used: false,
+            snap0: None,
         };
         self.ops.push(rec);
         let i = self.ops.len() - 1;
@@ -506,7 +511,7 @@ impl MWorld {
             o.first_created = Some(m.created);
         }
         if let Some(d) = bad {
-            let p = if profile == "C04" { "C04" } else { "C01" };
+            let p = if profile == "C04" || profile == "C03" { profile.as_str() } else { "C01" };
             self.violate(p, "exclusive_handout", d);
         }
         if profile == "C13" {
@@ -566,6 +571,27 @@ fn outcome_for(w: &mut MWorld, kind: CallKind) -> Outcome {
         _ => unreachable!(),
     };
     let n = w.n_calls[slot];
+    // op-local fault of the get in progress (first matching call only)
+    let actor = current_actor();
+    if actor != CONTROLLER && !w.draining {
+        if let Some(opi) = w.cur_op.get(actor).copied().flatten() {
+            if let Op::Get { fault: Some(f), .. } = w.ops[opi].op {
+                let hit = match (f.at, kind) {
+                    (CallTag::Create, CallKind::Create) => true,
+                    (CallTag::Recycle, CallKind::Recycle) => true,
+                    (CallTag::PostCreate(a), CallKind::PostCreate(b)) => a == b,
+                    (CallTag::PreRecycle(a), CallKind::PreRecycle(b)) => a == b,
+                    (CallTag::PostRecycle(a), CallKind::PostRecycle(b)) => a == b,
+                    _ => false,
+                };
+                if hit && !w.ops[opi].fault_used {
+                    w.ops[opi].fault_used = true;
+                    w.n_calls[slot] += 1;
+                    return f.outcome;
+                }
+            }
+        }
+    }
     let o = if w.draining || w.ctl_op.is_some() && current_actor() == CONTROLLER {
         // epilogue / probes run fault-free
         Outcome::OK
@@ -1118,6 +1144,7 @@ pub fn run_op(actor: usize, idx: usize, op: Op, pool: &mut Option<SPool>) {
             t,
             enclosing,
             cancellable: _,
+            fault: _,
         } => {
             let Some(p) = pool.as_ref() else { return };
             if let Some(obj) = do_get(actor, idx, op, p, t, enclosing) {
